@@ -5,8 +5,9 @@ import json, subprocess
 from pathlib import Path
 V = Path(__file__).resolve().parent.parent
 kf = json.loads((V / 'known_findings.json').read_text())
-find = {f['id']: f for f in kf.get('findings', [])}
-fixed = {f['id']: f for f in kf.get('fixed', []) if 'id' in f}
+# rebuilt from findings/Cxx.json on every consolidation (nothing is carried over)
+find = {}
+fixed = {}
 log = subprocess.run(['git', '-C', '/repo', 'log', '--format=%h\t%s'], capture_output=True, text=True).stdout.splitlines()
 commits = {}
 for l in log:
@@ -21,10 +22,11 @@ for p in sorted((V / 'findings').glob('C*.json')):
         f = dict(f)
         f['commit'] = h or 'NOT-IN-/repo-YET'
         f['line'] = f"fixed: property={f['property']} {f['commit']} {f['what']}"
-        fixed[f['id']] = f
+        fixed[(f['property'], f['id'], f.get('commit_subject', ''))] = f
 # a finding that has been fixed is no longer a finding
+fixed_ids = {(k[0], k[1]) for k, f in fixed.items() if f['commit'] != 'NOT-IN-/repo-YET'}
 for i in list(find):
-    if i in fixed and fixed[i]['commit'] != 'NOT-IN-/repo-YET':
+    if (find[i]['property'], i) in fixed_ids:
         del find[i]
 kf['findings'] = sorted(find.values(), key=lambda f: (f['property'], f['id']))
 kf['fixed'] = sorted(fixed.values(), key=lambda f: (f['property'], f['id']))
